@@ -680,10 +680,19 @@ impl<SE: extensions::ShellExtensions> ExecuteInPipeline<SE> for ast::Command {
                     }
                 }
 
-                Ok(compound
-                    .execute(&mut pipeline_context.shell, &params)
-                    .await?
-                    .into())
+                match pipeline_context.shell {
+                    // The stage has a shell of its own (it is one of several pipeline stages):
+                    // start it and move on, as is done for builtins, so that every stage is
+                    // running before any of them is waited for. Executing it to completion here
+                    // would block forever as soon as it fills a pipe whose reader is a later,
+                    // not yet started stage.
+                    commands::ShellForCommand::OwnedShell { target, .. } => Ok(
+                        spawn_compound_in_owned_shell(*target, params, compound.clone()),
+                    ),
+                    commands::ShellForCommand::ParentShell(shell) => {
+                        Ok(compound.execute(shell, &params).await?.into())
+                    }
+                }
             }
             Self::Function(func) => Ok(func
                 .execute(&mut pipeline_context.shell, &params)
@@ -691,6 +700,21 @@ impl<SE: extensions::ShellExtensions> ExecuteInPipeline<SE> for ast::Command {
                 .into()),
         }
     }
+}
+
+/// Runs a compound command that is a pipeline stage on a blocking thread, in the shell owned by
+/// that stage.
+fn spawn_compound_in_owned_shell<SE: extensions::ShellExtensions>(
+    mut shell: Shell<SE>,
+    params: ExecutionParameters,
+    compound: ast::CompoundCommand,
+) -> ExecutionSpawnResult {
+    let join_handle = tokio::task::spawn_blocking(move || {
+        let rt = tokio::runtime::Handle::current();
+        rt.block_on(compound.execute(&mut shell, &params))
+    });
+
+    ExecutionSpawnResult::StartedTask(join_handle)
 }
 
 enum WhileOrUntil {
